@@ -55,13 +55,53 @@ def gen_rc(rng):
         ops.append("new:%d" % i if k < 0.3 else "as:%d:%d" % (i, j) if k < 0.8 else "rs:%d" % i)
     return {"comp": "rc", "ops": ops}
 
+def gen_vmap(rng):
+    keys = ["k", "level", "x"]
+    ops = []
+    for _ in range(rng.randint(2, 14)):
+        k = rng.random(); key = rng.choice(keys)
+        if k < 0.3: ops.append("a:%s:%d:%d" % (key, rng.randint(0, 1), rng.randint(0, 99)))
+        elif k < 0.6: ops.append("n:%s:%d:%s" % (key, rng.randint(0, 1), rng.choice(["7", "12", "x", "3"])))
+        elif k < 0.7: ops.append("r:%s" % key)
+        elif k < 0.93: ops.append("g:%s" % key)
+        else: ops.append("c")
+    return {"comp": "vmap", "ops": ops}
+
+def oracle_vmap(c, toks):
+    """a plain table key -> (type, value, object): a new object replaces (and destroys) the one stored under the key, the map
+    owns what it was given (add answers true), and at the end every object was destroyed exactly once."""
+    tab = {}; nid = 0; alive = set()
+    if len(toks) != len(c["ops"]) + 1: return ("C20:value-map", "trace has %d entries for %d operations" % (len(toks), len(c["ops"])))
+    for o, got in zip(c["ops"], toks):
+        f = o.split(":")
+        if f[0] in ("a", "n"):
+            nid += 1; alive.add(nid)
+            if f[0] == "n" and f[3] == "x":       # the parser refuses: the value that was created is thrown away, the table is unchanged
+                want = "parse=0"; alive.discard(nid)
+            else:
+                if f[1] in tab: alive.discard(tab[f[1]][2])
+                tab[f[1]] = (int(f[2]), int(f[3]), nid)
+                want = "add=1" if f[0] == "a" else "parse=1"
+        elif f[0] == "r": want = "add=1" if f[1] in tab else "unknown"
+        elif f[0] == "g": want = "%d:%d:%d" % tab[f[1]] if f[1] in tab else "unknown"
+        else: tab = {}; alive = set(); want = "ok"
+        if got != want: return ("C20:value-map", "after %s the map answers %s, a plain table of the values added says %s" % (o, got, want))
+    for item in toks[-1][2:-1].split(","):
+        if not item: continue
+        oid, cnt = item.split(":")
+        if cnt != "1": return ("C20:destroy-count", "value-map object %s was destroyed %s times" % (oid, cnt))
+    return None
+
 def corpus(ctx):
-    return [{"comp": "vs", "ops": "set:0:0:5 set:1:2:7 cp:0:2 sw:1:2 ad:3:0:9 vc:0:0 vc:0:1 su:2 cl:0 set:3:3:1 cp:1:1 sw:0:0 ad:1:2:4 ra:1 vc:1:2 ra:0 ra:3 sa:1 vc:1:2 sa:0 sa:2 set:0:1:3 sa:0 vc:0:1".split()}] + \
+    return [{"comp": "vmap", "ops": "n:level:1:7 g:level n:level:1:12 g:level a:k:0:3 a:k:1:4 r:k g:k n:x:0:x g:x c g:k".split()}] + [{"comp": "vs", "ops": "set:0:0:5 set:1:2:7 cp:0:2 sw:1:2 ad:3:0:9 vc:0:0 vc:0:1 su:2 cl:0 set:3:3:1 cp:1:1 sw:0:0 ad:1:2:4 ra:1 vc:1:2 ra:0 ra:3 sa:1 vc:1:2 sa:0 sa:2 set:0:1:3 sa:0 vc:0:1".split()}] + \
            [{"comp": "rcopt", "ops": ["".join(p)]} for p in itertools.permutations("gh12p")]
 
 def generate(ctx):
     n = {"quick": 5000, "thorough": 120000}[ctx.tier]
-    return [gen_vs(ctx.rng) if ctx.rng.random() < 0.75 else gen_rc(ctx.rng) for _ in range(n)]
+    def one():
+        k = ctx.rng.random()
+        return gen_vs(ctx.rng) if k < 0.65 else gen_rc(ctx.rng) if k < 0.85 else gen_vmap(ctx.rng)
+    return [one() for _ in range(n)]
 
 def oracle_vs(c, toks):
     """direct check of the implementation's own trace against the property."""
@@ -114,6 +154,10 @@ def evaluate(ctx, cases):
         if c["comp"] == "vs":
             if any(o.startswith(("cp", "sw")) for o in c["ops"]) and any(o.startswith(("set", "ad")) and int(o.split(":")[2]) < 2 for o in c["ops"]) and any(o.startswith(("set", "ad")) and int(o.split(":")[2]) >= 2 for o in c["ops"]): ctx.nontrivial(l)
             r = oracle_vs(c, i.split(" "))
+            if r: ctx.fail(r[0], r[1], c, {"impl": i[:900]})
+        elif c["comp"] == "vmap":
+            if len(c["ops"]) >= 4: ctx.nontrivial(l)
+            r = oracle_vmap(c, i.split(" "))
             if r: ctx.fail(r[0], r[1], c, {"impl": i[:900]})
         elif c["comp"] == "rc":
             # oracle: counts equal the number of pointers to the object; freed exactly when the last pointer went away
